@@ -146,7 +146,13 @@ func cmdVerify(args []string) int {
 				continue
 			}
 		}
-		if *prop != "" && !hasTag(fi.Contract.tags(), *prop) {
+		if *prop == "C09" {
+			// every indicator / strategy method under contract
+			pk := strings.SplitN(k, ".", 2)[0]
+			if !(pk == "trend" || pk == "momentum" || pk == "volatility" || pk == "volume" || strings.HasPrefix(pk, "strategy")) {
+				continue
+			}
+		} else if *prop != "" && !hasTag(fi.Contract.tags(), *prop) {
 			continue
 		}
 		keys = append(keys, k)
@@ -159,6 +165,9 @@ func cmdVerify(args []string) int {
 		reports = append(reports, rep)
 		for _, o := range rep.Obls {
 			if *prop != "" && len(o.Tags) > 0 && !hasTag(o.Tags, *prop) {
+				continue
+			}
+			if *prop == "C09" && !hasTag(o.Tags, "C09") {
 				continue
 			}
 			all = append(all, o)
@@ -372,6 +381,38 @@ func cmdVerify(args []string) int {
 				fmt.Printf("VIOLATION property=%s replay=%s\n", pid, path)
 			}
 		}
+	}
+	if *prop == "C03" && *fn == "" {
+		var keys []string
+		for _, rep := range reports {
+			fi := w.Funcs[rep.Key]
+			if fi == nil || fi.Contract == nil || len(fi.Contract.byKind("borrows", "")) > 0 {
+				continue // a borrowing stage (Head) leaves the rest of its input to its caller by contract
+			}
+			keys = append(keys, rep.Key)
+		}
+		n := 40
+		if *tier == "thorough" {
+			n = 1200
+		}
+		evaluated, funcs := 0, 0
+		for _, r := range replayAll(w, keys, n, seed, 14) {
+			if !r.Supported {
+				continue
+			}
+			funcs++
+			evaluated += r.Evaluated
+			for _, f := range r.Failures {
+				if f.Kind != "hang" && f.Kind != "leak" && f.Kind != "panic" && f.Kind != "crash" {
+					continue
+				}
+				violations++
+				path := writeReplay(*replayDir, pid, r.Function+"_bounded-"+f.Kind, map[string]interface{}{"obligation": r.Function + "/bounded/" + f.Kind, "failing_input": map[string]interface{}{"function": r.Function, "kind": f.Kind, "what": f.Text, "config": f.Config, "inputs": f.Inputs, "observed_outputs": f.Outputs}})
+				fmt.Printf("VIOLATION property=%s replay=%s\n", pid, path)
+				break
+			}
+		}
+		bounded = append(bounded, map[string]interface{}{"label": "bounded", "what": "hang / goroutine-leak / panic search on the real code: every pipeline function run on generated small inputs (unbuffered producers, one independent reader per output, 2 s hang timer, goroutine census 300 ms after the outputs were drained) - covers capacity-dependent deadlocks, which the deductive Kahn model cannot express", "functions": funcs, "cases_evaluated": evaluated, "cases_per_function": n})
 	}
 	boundedGlobal = bounded
 	fmt.Printf("functions=%d obligations=%d discharged=%d violations=%d load=%.1fs gen=%.1fs solve=%.1fs\n", len(reports), len(all), nd, violations, loadT.Seconds(), genT.Seconds(), solveT.Seconds())
